@@ -2062,6 +2062,25 @@ def m_from_be_bytes(I, st, t, args, site, depth):
     return None
 
 
+def m_into(I, st, t, args, site, depth):
+    """<T as Into<U>>::into -> the crate's own `impl From<T> for U`, when there is exactly one for the destination type"""
+    try:
+        body = I.facts.bodies.get(site[0]) if site else None
+        if body is None or t.dest is None or len(args) != 1:
+            return None
+        u = body.local_ty(t.dest.local)
+        cands = [b for p_, b in I.facts.bodies.items() if p_.startswith("<%s as std::convert::From<" % u) and p_.endswith(">::from")]
+        if len(cands) != 1:
+            return None
+        I.ctx.append(cands[0].path)
+        try:
+            return [(s2, r) for s2, r in I.call_body(cands[0], args, st.fork(), depth + 1)]
+        finally:
+            I.ctx.pop()
+    except Exception:
+        return None
+
+
 def m_unwrap_or(I, st, t, args, site, depth):
     v = args[0]
     if isinstance(v, Struct) and v.variant in ("Ok", "Some"):
@@ -2125,7 +2144,7 @@ DEFAULT_MODELS = {
     "std::ops::Deref::deref": m_deref,
     "std::ops::DerefMut::deref_mut": m_deref,
     "std::clone::Clone::clone": m_clone,
-    "std::convert::Into::into": None,
+    "std::convert::Into::into": m_into,
     "std::result::Result::map": m_result_map,
     "std::result::Result::map_err": m_result_map_err,
     "std::result::Result::and_then": m_result_and_then,
